@@ -181,6 +181,12 @@ void build_faults() {
     for (unsigned char sel : csel)
       faults_of(c13::coeff_seed(v), "coeff" + std::to_string(v) + "/sel" + std::to_string(sel),
                 [=](const std::string& s) { return std::string(1, (char)sel) + s; }, g_coeff, sel == 0);
+  // headers that legitimately ask for more memory than the 512 MB cap: the legal exit is std::bad_alloc
+  g_coeff.push_back({"huge-allocation", "coeff:N=M=16383,no-data", [] { return std::string(1, '\0') + le32(16383) + le32(16383); }});
+  g_coeff.push_back({"huge-allocation", "coeff:N=M=16383,truncating-request", [] { return std::string(1, (char)0x27) + le32(16383) + le32(16383); }});
+  { std::string b = c13::nn_save(9, 2, true);
+    g_nnbin.push_back({"huge-allocation", "nnbin:numpoints=treesize=INT_MAX", [b] { std::string s = b; s.replace(28, 4, le32(2147483647)); s.replace(32, 4, le32(2147483647)); return s; }});
+    g_nntext.push_back({"huge-allocation", "nntext:numpoints=treesize=INT_MAX", [] { return std::string("1 53 4 2147483647 2147483647 0\n-1 0 1 2 -1\n"); }}); }
   { static const int np[] = {9, 40, 17, 0, 30}, bk[] = {2, 4, 0, 4, 10};
     for (int v = 0; v < 5; ++v) {
       c13::SeedFile b; b.name = "nnbin"; b.bytes = c13::nn_save(np[v], bk[v], true); c13::nnbin_fields(b);
